@@ -27,6 +27,7 @@ def run(ctx, rep):
     rep.run(RX.rule_element_truthiness, ctx, rep, "Q2")
     rep.run(RX.rule_unreadable_xml, ctx, rep, "Q3")
     rep.run(RX.rule_overload_counter, ctx, rep, "Q4")
+    rep.run(RX.rule_empty_docstring_exactly_when_nothing_to_document, ctx, rep, "Q4")
     rep.run(RX.rule_lookup_provenance, ctx, rep, "Q5")
     rep.run(RX.rule_filter_polarities, ctx, rep, "Q5")
     rep.run(RX.rule_names_confirmed, ctx, rep, "Q5")
